@@ -23,8 +23,8 @@ func c09Candidates(lvl int) []string {
 	} else {
 		g = gen.Alt(
 			gen.Seq(ep, rel),
-			gen.Seq(gen.Opt(gen.Lit("1!")), gen.Lit("1.0", "1", "1.1", "1.0.0.0.1", "2"), pre, post, dev),
-			gen.Seq(gen.Lit("1.0", "1.1"), gen.Opt(gen.Lit("a1", "rc1")), gen.Opt(gen.Lit(".post1")), gen.Opt(gen.Lit(".dev1")), local),
+			gen.Seq(gen.Opt(gen.Lit("1!")), gen.Lit("1.0", "1", "1.1", "1.0.0.0.1", "2", "1.0.0", "0.9", "1.10"), pre, post, dev),
+			gen.Seq(gen.Lit("1.0", "1.1", "1"), gen.Opt(gen.Lit("a1", "rc1", "b2")), gen.Opt(gen.Lit(".post1", ".post2")), gen.Opt(gen.Lit(".dev1", ".dev2")), local),
 		)
 	}
 	return g
